@@ -168,3 +168,19 @@ Lemma lsml_skeleton_ok : lsml_skeleton =
   ; "self.n_iter_ = it"
   ; "self.components_ = components_from_metric(M)" ]%string.
 Proof. reflexivity. Qed.
+
+(* ---- the descent loop of _fit as translated: it is the model's search / descend, for any carrier ---- *)
+Lemma src_try_fold_is_search {O : Ops} : forall (cands : list (T O * list (list (T O)))) s (Mb : option (list (list (T O)))),
+  fold_left (@lsml_try O) cands (s, Mb) = @search O s Mb cands.
+Proof.
+  induction cands as [|[c Mc] cands IH]; intros s Mb; [reflexivity|].
+  cbn [fold_left search]. unfold lsml_try at 2. destruct (oltb O c s); apply IH.
+Qed.
+
+Theorem src_descent_is_descend {O : Ops} : forall (iters : list (list (T O * list (list (T O))))) s M,
+  @lsml_descent O s M iters = @descend O s M iters.
+Proof.
+  induction iters as [|cands iters IH]; intros s M; [reflexivity|].
+  cbn [lsml_descent descend]. unfold lsml_iteration. rewrite src_try_fold_is_search.
+  destruct (@search O s None cands) as [s' [M'|]]; [apply IH | reflexivity].
+Qed.
